@@ -158,7 +158,15 @@ bool StepScript(InterpreterEnv& env)
         } catch (...) {
             // a throwing operation (e.g. script number overflow) must not leave a stale history entry behind:
             // a later rewind would pop it and move curr_op_seq below the start of the script
-            pc = env.pc_history.back(); // (the operation did not take place: the position stays on it, see below)
+            // (the operation did not take place: position and state are those before it, see below)
+            pc = env.pc_history.back();
+            env.stack = env.stack_history.back();
+            env.altstack = env.altstack_history.back();
+            env.nOpCount = env.nOpCount_history.back();
+            env.vfExec = env.vfExec_history.back();
+            env.pbegincodehash = env.pbegincodehash_history.back();
+            env.execdata = env.execdata_history.back();
+            env.opcode_pos = env.opcode_pos_history.back();
             env.stack_history.pop_back();
             env.altstack_history.pop_back();
             env.pc_history.pop_back();
@@ -172,7 +180,16 @@ bool StepScript(InterpreterEnv& env)
         if (!step_ok) {
             // undo above pushes -- and stay ON the failed operation: with the position advanced but no history entry, a rewind popped the entry
             // of an earlier operation (after a script switch: an iterator into the previous script) and stepping went on past the failure
+            // The partial effects of the failed operation (operands popped, operation count and signature budget charged) go as well:
+            // retrying it - e.g. after repairing the stack with `exec` - must not count it twice
             pc = env.pc_history.back();
+            env.stack = env.stack_history.back();
+            env.altstack = env.altstack_history.back();
+            env.nOpCount = env.nOpCount_history.back();
+            env.vfExec = env.vfExec_history.back();
+            env.pbegincodehash = env.pbegincodehash_history.back();
+            env.execdata = env.execdata_history.back();
+            env.opcode_pos = env.opcode_pos_history.back();
             env.stack_history.pop_back();
             env.altstack_history.pop_back();
             env.pc_history.pop_back();
